@@ -8,5 +8,6 @@ patch -s -p1 -d "$D" < "$1"
 shift
 P=$1; T=${2:-quick}
 VV_REPO="$D" /verif/vv check "$P" --tier "$T" > "$D/out.txt" 2>&1 || true
-grep -E "VIOLATION|UNDECIDED|KNOWN|Traceback|Error" "$D/out.txt" | cut -c1-260 | sed "s#$D#<scratch>#g" | head -${LINES_MAX:-14}
+grep -E "VIOLATION|KNOWN|Traceback|Error" "$D/out.txt" | cut -c1-260 | sed "s#$D#<scratch>#g" | head -${LINES_MAX:-14}
+grep -E "UNDECIDED" "$D/out.txt" | cut -c1-260 | sed "s#$D#<scratch>#g" | head -3
 grep -E "^RESULT" "$D/out.txt"
